@@ -37,6 +37,9 @@ CHECKS = {
  "C19": ("Expect.tla defines SpecPass and an implementation-shaped model of the reader loop; TLC enumerates all one-step sessions (<=2 outputs x <=3 lines) and two-step sessions over a small vocabulary, checks the documented loop sound on the model, and exports them; the real Session.Run is run on them against a line-echo subprocess; TLC judges toolPassed => SpecPass.",
          "8.C19", "quick runs a stratified sample (3,100 sessions) of the enumerated universe, thorough all one-step sessions plus 30,000 two-step ones; echo subprocess = cat; only the false-pass direction is judged",
          "TLA+ session semantics (Expect.tla) + TLC-enumerated sessions replayed into the real tool + TLC trace judge"),
+ "C20": ("SpecGraph.tla defines the facts of a spec graph (missing targets, terminals, orphans, counts, interpreters) and the content of a faithful rendering; TLC enumerates all graphs with <=3 nodes over a small vocabulary and exports them; real compiled specs are analysed and rendered (panic trap), the renderings parsed back, and TLC judges set/count equality and totality.",
+         "8.C20", "quick judges a 12,000-graph sample of the 84,885 enumerated graphs plus 4,000 seeded larger graphs, thorough all of them plus 80,000; non-identifier names and empty targets are judged for totality only; the strict Graphviz/Mermaid subset parsers are trusted",
+         "TLA+ graph facts (SpecGraph.tla) + TLC-enumerated graphs replayed into tools.Analyze/Dot/Mermaid + TLC trace judge"),
 }
 def main():
     checks = []
